@@ -242,6 +242,8 @@ type SketchModel struct {
 	BinsUnknown bool
 	// everFolded is sticky: some weight held by this sketch went through a bounded store's fold since the last Clear.
 	everFolded bool
+	// PeakAbs is the largest sum of |value*weight| seen since the last Clear (a running sum that overflowed once stays infinite).
+	PeakAbs float64
 }
 
 // EverFolded tells whether any weight held was moved by a collapsing store since the last Clear.
@@ -261,7 +263,7 @@ func NewSketchModel(m *gen.Map, sp gen.StoreSpec) *SketchModel {
 }
 
 func (m *SketchModel) Clone() *SketchModel {
-	c := &SketchModel{Map: m.Map, Pos: m.Pos.Clone(), Neg: m.Neg.Clone(), Zero: m.Zero, Lossy: m.Lossy, BinsUnknown: m.BinsUnknown, everFolded: m.everFolded}
+	c := &SketchModel{Map: m.Map, Pos: m.Pos.Clone(), Neg: m.Neg.Clone(), Zero: m.Zero, Lossy: m.Lossy, BinsUnknown: m.BinsUnknown, everFolded: m.everFolded, PeakAbs: m.PeakAbs}
 	c.Items = append([]Item{}, m.Items...)
 	return c
 }
@@ -291,6 +293,9 @@ func (m *SketchModel) Merge(o *SketchModel) {
 	m.Lossy += o.Lossy
 	m.BinsUnknown = m.BinsUnknown || o.BinsUnknown
 	m.everFolded = m.everFolded || o.EverFolded()
+	if o.PeakAbs > m.PeakAbs {
+		m.PeakAbs = o.PeakAbs
+	}
 }
 
 func (m *SketchModel) Scale(f float64) {
@@ -310,6 +315,7 @@ func (m *SketchModel) Clear() {
 	m.Lossy = 0
 	m.BinsUnknown = false
 	m.everFolded = false
+	m.PeakAbs = 0
 }
 
 func (m *SketchModel) Total() float64 { return m.Zero + m.Pos.Total() + m.Neg.Total() }
